@@ -48,6 +48,18 @@ FIRST_MISSED = {
     "C15-e": "missed at first; the same names formatted under both quoting styles added to alphabet and probes",
     "C18-e": "first only as a broken obligation; quoted text inside a column type (generated column) added to C18, column-type probes and 'an earlier parser must not change when a later one is built' signature to C15",
     "C19-e": "missed at first; sizes of 0 and time types with a precision added",
+    "C02-f": "missed at first; WITH in front of a wholly parenthesised body added",
+    "C05-f": "missed at first (only FILTER … OVER was in the targeted list); aggregate modifiers in every accepted order added",
+    "C06-f": "first only as a broken correspondence (backslash strings were all attributed to the known Python-evaluation defect); a decoding that is neither the text nor its Python evaluation is now a finding of its own",
+    "C08-f": "a thread interleaving (lock narrowed to the engine run): shown by C16's soak",
+    "C09-f": "first only as a broken obligation; quoted texts side by side (literal + single-quoted alias) added to the gap oracle",
+    "C10-f": "missed at first; CASE as ELSE / subject / WHEN position and CASE, CAST, BETWEEN, IN, EXISTS as the expression added",
+    "C12-f": "a thread interleaving (per-parser locks): shown by C16's soak",
+    "C13-f": "missed at first; empty statements that hold only a comment (`; /* x */ ;`) added",
+    "C14-f": "missed at first; degenerate lexemes (empty quoted names, lone quotes / brackets) in 15 positions × 4 dialects added",
+    "C17-f": "missed at first; a calls= hook that re-enters parse (blocks on the pinned tree, goes through with a re-entrant lock) added",
+    "C18-f": "first only as a broken obligation; comments glued to words added to the neutral statements",
+    "C19-f": "missed at first; unquoted column names that are words of the DDL grammar (key, index, …) added",
 }
 rows = []
 for d in sorted(glob.glob(os.path.join(V, "seeded", "*"))):
